@@ -71,6 +71,36 @@ def tree(root):
     return out
 
 
+LAST_CMD_INFO = None
+
+
+def describe_cmd(code):
+    """(codec name, 'encoder'|'decoder', generator function name) of one emitted worker command"""
+    from vc2_conformance.scripts.vc2_test_case_generator.worker import decode
+
+    fn = decode(code.strip())
+    kind = "encoder" if fn.args[1].__name__ == "output_encoder_test_cases" else "decoder"
+    return (fn.args[3]["name"], kind, fn.args[4].args[0].__name__)
+
+
+def wp_lines(cmd_info, writes):
+    """every traced write of every worker command must be a path the model says that command owns - and the next
+    command in the list does not"""
+    lines, exp = [], []
+    n = len(cmd_info)
+    for i, paths in sorted(writes.items()):
+        for pth in paths:
+            if " " in pth:
+                continue
+            lines.append("wp %s %s %s %s" % (cmd_info[i] + (pth,)))
+            exp.append("own")
+            j = (i + 1) % n
+            if cmd_info[j] != cmd_info[i]:
+                lines.append("wp %s %s %s %s" % (cmd_info[j] + (pth,)))
+                exp.append("foreign")
+    return lines, exp
+
+
 def generate(work, variant, rng, n_workers=14):
     """-> (serial tree, worker tree, per-command write sets, notes)"""
     csvp = os.path.join(work, "codecs.csv")
@@ -112,6 +142,12 @@ def generate(work, variant, rng, n_workers=14):
                 writes[i] = sorted(set(os.path.relpath(l.strip(), par_dir) for l in f if l.strip()))
         except IOError:
             writes[i] = []
+    global LAST_CMD_INFO
+    try:
+        LAST_CMD_INFO = [describe_cmd(c) for c in cmds]
+    except Exception as e:  # noqa
+        LAST_CMD_INFO = None
+        notes.append("worker command cannot be decoded: %s" % type(e).__name__)
     return tree(ser_dir), tree(par_dir), writes, notes, len(cmds)
 
 
@@ -137,13 +173,14 @@ def compare(ser, par, writes):
 
 class Prop(object):
     id = "C24"
-    lean_modules = ["VC2.Props.C24"]
+    lean_modules = ["VC2.Props.C24", "VC2.Props.C24Paths"]
     status = "partial"
     rule = ("the REAL vc2-test-case-generator on a two-column codec-features CSV (the minimal configuration and an adjacent lossy column differing only in its quantisation matrix): "
             "one serial run in one process vs the emitted --parallel worker commands each in its own process, in shuffled order, 14 at a time, every process under a different "
             "PYTHONHASHSEED; the two output trees are compared byte for byte; every worker's file writes are traced (open() wrapped in-process) to check that no two commands write the "
             "same path and that every file is attributed; thorough: a second round with other seeds/order and the single-column CSV")
-    trusted = ["model WorkerFs.lean: its hypotheses (disjoint write sets, per-command determinism) are what this experiment checks on the real commands",
+    trusted = ["model WorkerFs.lean: its hypothesis of per-command determinism is what this experiment checks on the real commands",
+               "model WorkerPaths.lean (where a command writes) tied to cli.py by the wp correspondence on the traced writes: disjointness of the write sets is then a theorem",
                "OS-level atomicity of individual writes and the absence of other sources of nondeterminism (time, environment) cannot be exhibited by the model: experiment only"]
     assumptions = ["the worker entry point is run as `python -c '... worker.main([code])'` (the console script is not on PATH in this sandbox)"]
 
@@ -152,11 +189,18 @@ class Prop(object):
         self._bad = None
         ctx.corr_names.append("REAL generator: serial run == shuffled concurrent worker run under different hash seeds; traced write sets pairwise disjoint")
         rounds = [("two",)] if not ctx.thorough else [("two",), ("one",), ("two",)]
+        wl, we = [], []
         for (variant,) in rounds:
             work = tempfile.mkdtemp(prefix="c24_", dir=os.environ.get("TMPDIR", "/var/tmp"))
             try:
                 ser, par, writes, notes, ncmds = generate(work, variant, rng)
                 why = "; ".join(notes) if notes else compare(ser, par, writes)
+                if LAST_CMD_INFO:
+                    if len(set(LAST_CMD_INFO)) != len(LAST_CMD_INFO):
+                        ctx.broke("correspondence", "wp", "two worker commands share (codec, kind, generator): %s" % LAST_CMD_INFO)
+                    lines, exp = wp_lines(LAST_CMD_INFO, writes)
+                    wl += lines
+                    we += exp
                 ctx.evaluations += len(ser) + len(par)
                 ctx.count("files:%s" % variant, len(ser))
                 ctx.count("worker-commands:%s" % variant, ncmds)
@@ -166,6 +210,7 @@ class Prop(object):
                     self._bad = {"csv_variant": variant, "why": why}
             finally:
                 shutil.rmtree(work, ignore_errors=True)
+        ctx.diff("wp every traced write of every REAL worker command is a path the model says that command owns (and another command does not)", wl, we)
 
     def findings(self, ctx):
         return [self._bad] if self._bad else []
